@@ -12,9 +12,57 @@ import (
 )
 
 type c17Gen struct {
-	r   *Rng
-	w   *c17World
-	cnt *Counters
+	r      *Rng
+	w      *c17World
+	cnt    *Counters
+	script []c17Op // a directed sequence being played
+}
+
+// staleUpgradeScript: a software-upgrade proposal that is valid when submitted and
+// whose plan height has passed when it is decided - by the deadline (deadline
+// tally) or by the deciding votes (first past the post).  It must then be closed
+// as Invalid by the dry run of enactProposal; the real handler would fail.
+func (g *c17Gen) staleUpgradeScript() []c17Op {
+	w, r := g.w, g.r
+	var cands []c17Com
+	for _, id := range g.comIDs() {
+		c := w.coms[id]
+		if c.Token || c.Duration < 10 {
+			continue
+		}
+		for _, pm := range c.Perms {
+			if pm.Kind == "other" || pm.Kind == "god" {
+				cands = append(cands, c)
+				break
+			}
+		}
+	}
+	if len(cands) == 0 {
+		return nil
+	}
+	c := pick(r, cands)
+	pid := w.nextPid
+	ops := []c17Op{{Kind: "submit", Com: c.ID, A: c.Members[0], Content: &c17Content{Kind: "upgrade", H: w.height + int64(1+r.Intn(2))}}}
+	var votes []c17Op
+	for _, m := range c.Members {
+		votes = append(votes, c17Op{Kind: "vote", Pid: pid, A: m, Vt: 1})
+	}
+	blocks := []c17Op{{Kind: "begin", T: w.now + 1}, {Kind: "begin", T: w.now + 2}, {Kind: "begin", T: w.now + 3}}
+	if c.FPTP {
+		// nobody votes for three blocks, then everybody does: decided at the next block
+		ops = append(ops, blocks...)
+		ops = append(ops, votes...)
+		ops = append(ops, c17Op{Kind: "begin", T: w.now + 4})
+	} else {
+		// everybody votes at once; the decision waits for the deadline
+		ops = append(ops, votes...)
+		ops = append(ops, blocks...)
+		ops = append(ops, c17Op{Kind: "begin", T: w.now + c.Duration})
+	}
+	if g.cnt != nil {
+		g.cnt.Inc("split:script:stale-upgrade")
+	}
+	return ops
 }
 
 var (
@@ -133,8 +181,8 @@ func c17GenSetup(r *Rng) c17Setup {
 		if r.Chance(1, 2) {
 			ps = append(ps, c17Perm{Kind: "text"})
 		}
-		if r.Chance(1, 10) {
-			ps = append([]c17Perm{{Kind: "other"}}, ps...)
+		if r.Chance(8, 10) {
+			ps = append([]c17Perm{{Kind: "other"}}, ps...) // SoftwareUpgradePermission
 		}
 		return ps
 	}
@@ -526,6 +574,12 @@ func (g *c17Gen) genDoc(slot int, perm *c17Perm, prev *c17Snap) string {
 	return doc.text()
 }
 
+// genUpgrade: a plan a few blocks ahead - it goes stale when the deciding votes or
+// the deadline come later than that - or far ahead, or already in the past
+func (g *c17Gen) genUpgrade() *c17Content {
+	return &c17Content{Kind: "upgrade", H: g.w.height + int64(pick(g.r, []int{1, 1, 2, 2, 3, 4, 6, 40, 40, 0, -3}))}
+}
+
 func (g *c17Gen) genContent(perm *c17Perm, prev *c17Snap) *c17Content {
 	r := g.r
 	switch r.Pick(86, 11, 3) {
@@ -576,6 +630,17 @@ func (g *c17Gen) comIDs() []int {
 func (g *c17Gen) genOp(prev *c17Snap) c17Op {
 	r := g.r
 	w := g.w
+	if len(g.script) == 0 && r.Chance(4, 100) {
+		g.script = g.staleUpgradeScript()
+	}
+	if len(g.script) > 0 {
+		op := g.script[0]
+		g.script = g.script[1:]
+		if op.Kind == "begin" && op.T < w.now {
+			op.T = w.now
+		}
+		return op
+	}
 	ids := g.comIDs()
 	pending := prev.props
 	wVote, wBegin := 6, 8
@@ -607,6 +672,9 @@ func (g *c17Gen) genOp(prev *c17Snap) c17Op {
 		if perm.Kind == "params" {
 			pp = &perm
 		}
+		if r.Chance(4, 100) {
+			return c17Op{Kind: "allows", Perm: &perm, Content: g.genUpgrade()}
+		}
 		return c17Op{Kind: "allows", Perm: &perm, Content: g.genContent(pp, prev)}
 	case 1:
 		// directed: move a parameter under a pending parameter-change proposal (as x/gov could), so that
@@ -632,6 +700,14 @@ func (g *c17Gen) genOp(prev *c17Snap) c17Op {
 			}
 		}
 		op.Content = g.genContent(pp, prev)
+		if c, ok := w.coms[op.Com]; ok && r.Chance(22, 100) {
+			for _, pm := range c.Perms {
+				if pm.Kind == "other" || pm.Kind == "god" {
+					op.Content = g.genUpgrade()
+					break
+				}
+			}
+		}
 		return op
 	case 3:
 		op := c17Op{Kind: "vote", Pid: 1 + r.Intn(6), A: r.Intn(c17NAcc), Vt: 1}
